@@ -186,7 +186,7 @@ func VFlowRun(W int, events []VFlowEvent) (abs VFlowAbs) {
 			m, _ := pmpx.OpenMessageErr(f.raw)
 			switch f.Code {
 			case pmpx.Code_ChannelOpen:
-				chR = openChannel(cr, false, m.ChannelOpen())
+				chR = vOpenChannel(cr, false, m.ChannelOpen())
 			default:
 				if chR == nil {
 					problems = append(problems, "harness: frame before open")
@@ -703,6 +703,103 @@ func init() {
 				x.Fail("error logged: "+errSig(e), "%s", e)
 			}
 			x.Outcome = fmt.Sprintf("sts=%v got=%d end=%v", sts, len(got), aEnd)
+			w.shutdown()
+		},
+	})
+}
+
+// A1: the two ends are configured with different window options. The window of a channel is the one its opener
+// announced in the open frame; both directions must keep flowing while the receivers consume.
+func init() {
+	vexp.Register(&vexp.Scenario{
+		Name: "c07.A1.different-window-options-on-the-two-ends", Prop: "C07", Also: []string{"C03"}, MaxSteps: 400000,
+		Bounds: func(thorough bool) vexp.Bounds {
+			if thorough {
+				return vexp.Bounds{P: 1, F: 1, E: 0}
+			}
+			return vexp.Bounds{P: 1, F: 0, E: 0}
+		},
+		Configs: func(thorough bool) []map[string]int {
+			return []map[string]int{
+				{"window": 4096, "srvwindow": 512, "size": 500, "n": 12},
+				{"window": 512, "srvwindow": 4096, "size": 500, "n": 12},
+				{"window": 4096, "srvwindow": 1024, "size": 3000, "n": 4},
+				{"window": 1024, "srvwindow": 65536, "size": 700, "n": 8}}
+		},
+		Doc: "real client and server connections whose options differ: client window `window`, server window `srvwindow`. The client opens a channel (the open frame announces the client's window), sends n messages of `size` bytes and the handler streams n messages of `size` bytes back, several windows' worth in each direction, while both sides keep consuming: every Send must be admitted, all messages arrive in order, both ends observe the end (a side that sizes its send window or its acknowledgement threshold from its OWN option instead of the announced window stalls in one direction)",
+		Body: func(x *vexp.Ctx) {
+			size, n := x.P("size", 500), x.P("n", 12)
+			var srvGot, cliGot [][]byte
+			hDone, sendDone := false, false
+			handler := HandleFunc(func(ctx Context, ch Channel) status.Status {
+				defer func() { hDone = true }()
+				sd := false
+				vsched.GoNamed("srv.sender", func() {
+					defer func() { sd = true }()
+					for k := 0; k < n; k++ {
+						if st := ch.Send(async.NoContext(), vPayload(1, 0, k, size)); !st.OK() {
+							return
+						}
+					}
+				})
+				for len(srvGot) < n {
+					m, st := ch.Receive(async.NoContext())
+					if !st.OK() {
+						break
+					}
+					srvGot = append(srvGot, append([]byte{}, m...))
+				}
+				vsched.Join("server sender done", func() bool { return sd })
+				sendDone = true
+				return status.OK
+			})
+			w := newWide(x, handler)
+			live := async.NoContext()
+			ch, st := w.cli.Channel(live)
+			if !st.OK() {
+				x.Fail("Channel fails on a healthy connection", "%v", st)
+				return
+			}
+			cSend, cRecv, ended := false, false, false
+			vsched.GoNamed("cli.sender", func() {
+				defer func() { cSend = true }()
+				for k := 0; k < n; k++ {
+					if st := ch.Send(live, vPayload(0, 0, k, size)); !st.OK() {
+						x.Fail("Send fails on a healthy connection", "%v", st)
+						return
+					}
+				}
+			})
+			vsched.GoNamed("cli.receiver", func() {
+				defer func() { cRecv = true }()
+				for {
+					m, st := ch.Receive(live)
+					if !st.OK() {
+						ended = st.Code == status.CodeEnd
+						return
+					}
+					cliGot = append(cliGot, append([]byte{}, m...))
+				}
+			})
+			vsched.Join("both directions complete", func() bool { return cSend && cRecv && hDone })
+			ch.Free()
+			if len(srvGot) != n || len(cliGot) != n || !ended || !sendDone {
+				x.Fail("messages missing although both sides kept consuming", "server got %d, client got %d of %d, end seen %v", len(srvGot), len(cliGot), n, ended)
+			}
+			for k := range srvGot {
+				if string(srvGot[k]) != string(vPayload(0, 0, k, size)) {
+					x.Fail("message corrupted or reordered", "client->server message %d", k)
+				}
+			}
+			for k := range cliGot {
+				if string(cliGot[k]) != string(vPayload(1, 0, k, size)) {
+					x.Fail("message corrupted or reordered", "server->client message %d", k)
+				}
+			}
+			for _, e := range w.log.bad() {
+				x.Fail("error logged: "+errSig(e), "%s", e)
+			}
+			x.Outcome = fmt.Sprintf("srv=%d cli=%d end=%v", len(srvGot), len(cliGot), ended)
 			w.shutdown()
 		},
 	})
